@@ -95,7 +95,13 @@ def build_lib(variant, th=None):
     tdir = os.path.join(CACHE, 't-' + th[:20])
     d = os.path.join(tdir, 'lib-%s-%s' % (variant, fk))
     lib = os.path.join(d, 'libcpputest.a')
-    with Lock(os.path.join(CACHE, 'lock-' + variant)):
+    if os.path.exists(lib):
+        try:
+            os.utime(tdir)
+        except OSError:
+            pass
+        return lib, flags
+    with Lock(os.path.join(CACHE, 'lock-%s-%s' % (th[:20], variant))):
         if os.path.exists(lib):
             os.utime(tdir)
             return lib, flags
@@ -149,7 +155,9 @@ def build_harness(pid, variant):
     hk = hashlib.sha256((file_hash(deps) + ' '.join(flags + extra)).encode()).hexdigest()[:12]
     d = os.path.dirname(lib)
     exe = os.path.join(d, '%s-%s' % (pid, hk))
-    with Lock(os.path.join(CACHE, 'lock-h-%s-%s' % (pid, variant))):
+    if os.path.exists(exe):
+        return exe
+    with Lock(os.path.join(CACHE, 'lock-h-%s-%s-%s' % (th[:20], pid, variant))):
         if os.path.exists(exe):
             return exe
         t0 = time.time()
@@ -402,7 +410,7 @@ def load_known():
 
 def match_known(pid, key, known):
     for k in known:
-        if k.get('status') == 'known' and k.get('property') == pid and fnmatch.fnmatchcase(key, k.get('key', '')):
+        if k.get('status') == 'known' and k.get('property') == pid and (key == k.get('key', '') or ('*' in k.get('key', '') and fnmatch.fnmatchcase(key, k.get('key', '').replace('[', '[[]')))):
             return k
     return None
 
@@ -463,7 +471,7 @@ def judge(pid, cfg, tier, seed, scale, results, t0, workdir, is_replay):
                 violations.append(dict(key=rec['key'], case=rec['case'], variant=v, detail=rec.get('detail', ''), desc=rec.get('desc'), section=rec.get('section')))
             elif t == 'obs':
                 observations.append(rec)
-            elif t == 'end':
+            elif t in ('end', 'part'):
                 evaluations += rec['evaluations']
                 for k, n in rec['counters'].items():
                     counters[k] = counters.get(k, 0) + n
